@@ -1019,6 +1019,17 @@ func (p *peer) runD(scenario, v string, r *vc.Rng) deadlineRec {
 	io.ReadFull(srv, ann)
 	e1 := envelope(int64(r.U64()>>3<<2)|1, r.Bytes(40))
 	e2 := envelope(int64(r.U64()>>3<<2)|1, r.Bytes(24))
+	cutAt := -1
+	if scenario == "deadline-midframe-embedded" {
+		// the second half of frame 1 is, byte for byte, a frame of its own (a valid envelope behind a valid length header):
+		// a reader that has lost the first half - bytes it had consumed before its deadline - and goes on reading takes
+		// it for a message of the peer.  What is delivered must be what was sent, or nothing.
+		e3 := envelope(int64(r.U64()>>3<<2)|1, []byte("INJECTED-NEVER-SENT-"))
+		inner := refFrames(v, [][]byte{e3})
+		pre := r.Bytes(16 + (4-len(inner)%4)%4)
+		e1 = envelope(int64(r.U64()>>3<<2)|1, append(pre, inner...))
+		cutAt = len(refFrames(v, [][]byte{e1})) - len(inner)
+	}
 	f1, f2 := refFrames(v, [][]byte{e1}), refFrames(v, [][]byte{e2})
 	go func() {
 		switch scenario {
@@ -1026,6 +1037,10 @@ func (p *peer) runD(scenario, v string, r *vc.Rng) deadlineRec {
 			srv.Write(f1[:len(f1)/2])
 			time.Sleep(500 * time.Millisecond)
 			srv.Write(f1[len(f1)/2:])
+		case "deadline-midframe-embedded":
+			srv.Write(f1[:cutAt])
+			time.Sleep(500 * time.Millisecond)
+			srv.Write(f1[cutAt:])
 		case "deadline-idle":
 			time.Sleep(500 * time.Millisecond)
 			srv.Write(f1)
@@ -1833,7 +1848,7 @@ func (g *gen) generate() {
 	}
 
 	// --- read deadline / cancellation (outside the model)
-	for _, sc := range []string{"deadline-midframe", "deadline-idle", "cancel-midframe"} {
+	for _, sc := range []string{"deadline-midframe", "deadline-midframe-embedded", "deadline-idle", "cancel-midframe"} {
 		for _, v := range []string{"A", "I"} {
 			g.add(&job{kind: "D", v: v, scenario: sc, class: "deadline", rng: g.r.Fork(uint64(len(g.jobs)))})
 		}
